@@ -19,10 +19,11 @@ def conds(tier):
     out.append(Cond("steps", core.mk_steps(P, 2, 3), core.steps_params(2, 3), builds=("C", "P"), pin=2, budget=120,
                     family="F-STEPS(2,3)", encodes=core.ENC_SCHED))
     out.append(core.seq_cond("seq", P, 3, 2, builds=("C", "P")))
+    out.append(core.seq_cond("seq_opts", P, 3, 2, options=("COLLECT_PERF_STATS", "KEEP_DEPENDENCIES")))
     out.append(Cond("reentry", core.mk_reentry(PR), core.REENTRY_PARAMS, pin=3, budget=150,
                     family="F-REENTRY", encodes=core.ENC_SCHED))
-    out.append(core.fault_cond("fault", PR, [4], g0modes=2, g1modes=3, pin=4, budget=200))
-    out.append(core.cancel_cond("cancel", PR))
+    out.append(core.fault_cond("fault", PR | {"c02"}, [4], g0modes=2, g1modes=3, pin=4, budget=200, slim=q))
+    out.append(core.cancel_cond("cancel", PR | {"c02"}))
     out.append(core.dagsync_cond("dagsync", PR))
     out.append(lemmas.select_cond())
     out.append(Cond("flushraise", core.mk_flushraise({"c05"}), core.FLUSHRAISE_PARAMS, pin=3, budget=100,
